@@ -214,7 +214,7 @@ def u_kitty_supported(ctx):
     return obs + eng.obligations
 
 
-@unit("C12", "iterm2:ITerm2Image.is_supported")
+@unit(("C12", "C01"), "iterm2:ITerm2Image.is_supported")
 def u_iterm2_supported(ctx):
     obs = []
     for name in ("kitty", "konsole", "iterm2", "wezterm", "xterm", None):
@@ -225,6 +225,11 @@ def u_iterm2_supported(ctx):
             ver, nums = support_world(ctx, eng, st, name, vkind)
             cls = st.new("ITerm2Cls", {"_supported": None})
             st.env["cls"] = cls
+            # the class asked may be a SUBCLASS of the class that defines the method (`__class__`): the decision and the terminal
+            # identity that goes with it (`_TERM`, which selects the quirk mode of the renders, C01) belong to the class asked
+            base = st.new("ITerm2Cls", {"_supported": None})
+            eng.genv["__class__"] = base
+            before_base = dict(st.H(base))
             outs = run_function(eng, ctx.fn(ITERM, "ITerm2Image.is_supported"), st)
             expected = Or(name in ("iterm2", "wezterm"), And(name == "konsole", ge(nums, (22, 4, 0))))
             for kind, val, s in outs:
@@ -232,6 +237,11 @@ def u_iterm2_supported(ctx):
                     eng.oblige(f"no-exception:{getattr(val, 'cls', kind)}", s, False, kind="raise")
                     continue
                 eng.oblige("supported-iff-documented-rule;decision-cached", s, And(Eq(val, expected), Eq(s.H(cls)["_supported"], expected)), kind="post")
+                h = s.H(cls)
+                for pr_ in ("C12", "C01"):
+                    eng.oblige(f"{pr_}:decision-and-terminal-identity-recorded-together-on-the-class-asked(not-on-the-defining-class)", s,
+                               And(s.H(base) == before_base, Implies(expected, And("_TERM" in h, h.get("_TERM") == name))), prop=pr_, kind="post",
+                               replay="C12.support" if pr_ == "C12" else "C01.forced_support_quirks")
             obs += eng.obligations
     return obs
 
